@@ -238,6 +238,10 @@ func attrSliceEqual(a, b Attributes) bool {
 }
 
 func attrEqual(attrA, attrB Attributes) bool {
+	if len(attrA) == 0 && len(attrB) == 0 {
+		// An empty list (e.g. after Reset or Build) equals a nil one.
+		return true
+	}
 	if attrA == nil && attrB == nil {
 		return true
 	}
